@@ -9,7 +9,8 @@
    (_line_date_is_valid), and the defaults Gen.Params.SINCE_DEFAULT_*. *)
 From Coq Require Import ZArith List Bool Lia.
 From SK Require Import Model.Base Model.Dates Spec.Since Model.Since
-     Proofs.Dates Proofs.Since Gen.Exprs Gen.Params.
+     Proofs.Dates Proofs.Since Model.TsMatcher Gen.Exprs Gen.Params
+     Gen.XTsmatcher.
 Import ListNotations.
 Open Scope Z_scope.
 
@@ -150,6 +151,56 @@ Proof.
   exact (counters_lemma _ _ _ C16_window_selection C16_line_date_is_valid).
 Qed.
 
+(* ---- the per-line method bodies themselves (Gen/XTsmatcher.v, re-extracted
+   from the source on every run by translator/plugins/tsmatcher.py) ---- *)
+
+(* apply_to_line, as a decision tree over (since_date valid?, timestamp
+   extracted?, _line_date_is_valid?) with the counter updates on each path,
+   does exactly what the model's apply_to_line does: the answer, and
+   _line_pass / _line_fail bumped once on the passing / failing path and
+   never on the undecidable one *)
+Theorem C16_apply_to_line_program : forall st line,
+  let ts := extracted_datetime line in
+  let ok := match ts with
+            | Some t => line_date_is_valid t (since since_secs st)
+            | None => false
+            end in
+  tree_outcome (eval_atree true (match ts with Some _ => true | None => false
+                                 end) ok x_apply_to_line)
+  = Some (is_decided (fst (g_apply st line)), is_pass (fst (g_apply st line)),
+          c_pass (snd (g_apply st line)) - c_pass st,
+          c_fail (snd (g_apply st line)) - c_fail st).
+Proof.
+  intros st line. unfold apply_to_line. cbv zeta.
+  destruct (extracted_datetime line) as [t|].
+  - destruct (line_date_is_valid t (since since_secs st)); cbn;
+      repeat f_equal; lia.
+  - cbn. repeat f_equal; lia.
+Qed.
+
+(* without a since date the line is undecidable too, nothing is counted *)
+Theorem C16_apply_to_line_invalid : forall has_ts ok,
+  tree_outcome (eval_atree false has_ts ok x_apply_to_line)
+  = Some (false, false, 0, 0).
+Proof. intros has_ts ok. reflexivity. Qed.
+
+(* stats()['line'] reports _line_pass as 'pass' and _line_fail as 'fail' *)
+Theorem C16_stats_line : forall p f, x_stats_line p f = (p, f).
+Proof. intros p f. reflexivity. Qed.
+
+(* _is_valid holds whenever since_date could be computed; current_date is
+   read in the matcher class's own DEFAULT_DATETIME_FORMAT *)
+Theorem C16_is_valid_and_format : forall (A B : Type) (s : A) (c b : B),
+  x_is_valid (Some s) = true /\ x_is_valid (@None A) = false /\
+  x_date_format true c b = c.
+Proof. intros A B s c b. repeat split. Qed.
+
+(* since_date / apply_to_line of the base classes are abstract: the only
+   implementations are the ones translated above *)
+Theorem C16_base_methods_abstract :
+  x_since_date_abstract = true /\ x_apply_to_line_abstract = true.
+Proof. split; reflexivity. Qed.
+
 (* ---- non-vacuity ---- *)
 
 (* leap-day boundary: one day before 2024-03-01 00:00:00 is 2024-02-29
@@ -213,3 +264,8 @@ Print Assumptions C16_passes_iff_calendar.
 Print Assumptions C16_boundary_passes.
 Print Assumptions C16_undated_is_undecided.
 Print Assumptions C16_counters_count_decided.
+Print Assumptions C16_apply_to_line_program.
+Print Assumptions C16_apply_to_line_invalid.
+Print Assumptions C16_stats_line.
+Print Assumptions C16_is_valid_and_format.
+Print Assumptions C16_base_methods_abstract.
